@@ -329,7 +329,7 @@ pub const C16: Check = Check {
            /json,/csv,/jsonext,/slurm,/openbgpd,/bird2,/rpsl,/csvext. Because the writer is parked the served version is known exactly. \
            Oracle: a 304 is a violation iff the version served at that moment has a different payload fingerprint than \
            the one the presented validators came with. Real-time variant: updates within the same second and across \
-           second boundaries. distinct = (park point, changed?, validator kind, endpoint, status) classes",
+           second boundaries. Racing leg: GET /json runs while an update is installed under lock-acquisition jitter; validators are tagged by the version found in the response body. distinct = (park point, changed?, validator kind, endpoint, status) classes",
     assumptions: &["only validators issued by this server for these endpoints are presented (never '*', never invented dates)"],
     shards: |_| 8,
     watchdog: |t| Duration::from_secs(t.pick(300, 3600)),
@@ -434,6 +434,51 @@ fn run_c16(ctx: &mut Ctx, rep: &mut Report) {
         let vi = versions.len() - 1;
         for ep in endpoints.iter() { if rng.bool() { fetch(ep, vi, &next.fingerprint(), &mut held, rep); } }
         if held.len() > 400 { held.drain(0..200); }
+        // Racing leg: fetches run while an update is being installed (jitter before every acquisition of the history
+        // lock); the validators of every 200 response are tagged with the version its *body* holds (parsed), so a
+        // response pairing one version's validators with another version's body is caught by the later conditional GETs.
+        if round % 2 == 1 {
+            let cur = versions.last().unwrap().clone();
+            let next = version_model(&mut rng, 1000 + round as u32);
+            hooks.seed_jitter(ctx.seed ^ ((ctx.shard as u64) << 32) ^ round as u64);
+            hooks.set_action("history.read", Some(HookAction::Jitter(800)));
+            let stop = Arc::new(AtomicBool::new(false));
+            let mut fetchers = Vec::new();
+            for _ in 0..3 {
+                let stop = stop.clone();
+                fetchers.push(std::thread::spawn(move || {
+                    let mut got: Vec<(String, String, BTreeSet<String>)> = Vec::new();
+                    while !stop.load(Ordering::SeqCst) && got.len() < 60 {
+                        if let Ok(r) = http_get(http, "/json") {
+                            if r.status == 200 { if let (Some(e), Some(l), Ok(items)) = (r.header("etag"), r.header("last-modified"), parse_json_origins(&r.body)) { got.push((e.to_string(), l.to_string(), items)); } }
+                        }
+                    }
+                    got
+                }));
+            }
+            std::thread::sleep(Duration::from_millis(2));
+            let ok = srv.lock().unwrap().install(&hooks, &next).is_ok();
+            std::thread::sleep(Duration::from_millis(3));
+            stop.store(true, Ordering::SeqCst);
+            let mut raced: Vec<(String, String, BTreeSet<String>)> = Vec::new();
+            for f in fetchers { if let Ok(g) = f.join() { raced.extend(g); } }
+            hooks.set_action("history.read", None);
+            if !ok { rep.inconclusive("update failed"); return }
+            versions.push(next.clone());
+            let (cur_items, next_items) = (origin_items(&cur), origin_items(&next));
+            let mut raced_held: Vec<Validators> = Vec::new();
+            for (etag, lm, items) in raced {
+                let (fp, version) = if items == next_items { (next.fingerprint(), versions.len() - 1) } else if items == cur_items { (cur.fingerprint(), versions.len() - 2) } else { rep.count("raced_bodies_matching_no_version", 1); continue };
+                rep.count("raced_responses_tagged_by_body", 1);
+                raced_held.push(Validators { etag, last_modified: lm, fp, endpoint: "/json", version });
+            }
+            // present the validators that came with the old body first (they must not yield 304 now), then some others
+            raced_held.sort_by_key(|v| v.fp == next.fingerprint());
+            raced_held.dedup_by(|a, b| a.etag == b.etag && a.fp == b.fp && a.last_modified == b.last_modified);
+            raced_held.truncate(10);
+            for chunk in raced_held.chunks(1) { let one: Vec<Validators> = chunk.to_vec(); probe("after-race", &next, &one, rep, &mut rng); }
+            held.extend(raced_held);
+        }
     }
     if let Some(v) = held.last() {
         rep.sample(json!({"endpoint": v.endpoint, "etag": v.etag, "last_modified": v.last_modified, "payload_fingerprint": v.fp}));
